@@ -975,3 +975,7 @@ impl TryFrom<&[u8]> for ScmpUnknownMessageLayout {
         Self::try_from_slice(buf)
     }
 }
+
+#[cfg(kani)]
+#[path = "/verif/kani/sciparse/c14_scmp_layout.rs"]
+mod verif_c14_scmp_layout;
